@@ -408,6 +408,7 @@ type Contract struct {
 	File     string
 	Line     int
 	MayPanic bool
+	NoAlloc  bool // extern only (assumed): the callee allocates nothing the caller can reach, so heaps outside its modifies clause keep their version
 	NonRec   bool // structural obligation: the function is not part of a call cycle (stack use does not depend on the input)
 	Asserts  []Clause // lemma hints: assumed-after-proved facts at function entry
 	Hints    map[string][]Clause // "callee#k" -> facts proved (then assumed) just before that call
@@ -417,7 +418,7 @@ type Contract struct {
 var clauseKeywords = map[string]bool{
 	"func": true, "extern": true, "property": true, "uses": true, "requires": true, "ensures": true,
 	"modifies": true, "decreases": true, "loop": true, "invariant": true, "trusted": true, "pure": true,
-	"maypanic": true, "nonrecursive": true, "lemma": true, "hint": true, "hintafter": true,
+	"maypanic": true, "nonrecursive": true, "noalloc": true, "lemma": true, "hint": true, "hintafter": true,
 }
 
 // parseContractFile reads //@ lines.
@@ -476,6 +477,11 @@ func parseContractFile(path, pkg, text string) ([]*Contract, error) {
 			cur.MayPanic = true
 		case "nonrecursive":
 			cur.NonRec = true
+		case "noalloc":
+			if !cur.Extern {
+				return fmt.Errorf("%s: noalloc is only accepted on extern contracts", cur.Name)
+			}
+			cur.NoAlloc = true
 		case "requires":
 			c, err := mk()
 			if err != nil {
